@@ -11,7 +11,8 @@ def run(rep, kf, tier, seed):
         r.obligations = [o for o in r.obligations if "C08" in o.props or o.id.endswith("no-exception-escapes")]
         rep.merge(r)
     import contracts.removal as crm
-    engine_b.discharge(rep, kf, [crm.propagate_contract()], "C08", tier, seed)
+    import contracts.body_refs as cbr
+    engine_b.discharge(rep, kf, [crm.propagate_contract(), cbr.resolve_contract()], "C08", tier, seed)
     run_bounded(rep, kf, "C08", ["removal_closure", "schema_order", "body_media"], tier)
     rep.trusted.extend(["pyvc Engine B; LazyMap model of tables of unknown content"]
                        + ["assumed library contract: " + t for t in libmodels.TRUSTED])
